@@ -299,7 +299,12 @@ pub fn exec_writer(t: &[&str]) -> String {
         let s = String::from_utf8_lossy(&out.stdout).trim().to_string();
         if !out.status.success() && s.is_empty() { return format!("child-died:{:?}", out.status.code()); }
         // the property only distinguishes "failure reported" (documented panic on push, or error from close) from a complete file
-        if s.split_whitespace().any(|t| t == "panic" || t == "c:err" || t == "new:err") { return "reported".to_string(); }
+        // … and "success" is what the LAST close() said: a close() that returns Ok after an earlier failure (a retry, or a
+        // close after a caught push panic) claims a complete file, so the file is then compared in full
+        let toks: Vec<&str> = s.split_whitespace().take_while(|t| *t != "file=").collect();
+        let last_close = toks.iter().rev().find(|t| t.starts_with("c:")).cloned();
+        let failed = toks.iter().any(|t| *t == "panic" || *t == "c:err" || *t == "new:err");
+        if failed && last_close != Some("c:ok") { return "reported".to_string(); }
         return match s.find("file=") { Some(p) => s[p..].to_string(), None => s };
     }
     let colon = t.iter().position(|x| *x == ":").expect("harness: wr needs ':'");
@@ -313,14 +318,18 @@ pub fn exec_writer(t: &[&str]) -> String {
                 let mut w = if t[1] == "default" { RawVectorWriter::new(&path, &mut header).unwrap() }
                             else { RawVectorWriter::with_buf_len(&path, &mut header, parse_usize(t[1])).unwrap() };
                 for c in calls {
-                    match c.as_bytes()[0] {
-                        b'b' => w.push_bit(&c[1..] == "1"),
-                        b'i' => { let mut p = c[1..].split(','); let v = parse_u64(p.next().unwrap()); let wd = parse_usize(p.next().unwrap()); unsafe { w.push_int(v, wd); } },
-                        b'c' => out.push(match w.close() { Ok(()) => "c:ok".to_string(), Err(_) => "c:err".to_string() }),
-                        b'l' => out.push(format!("l{}", w.len())),
-                        b'o' => out.push(format!("o{}", w.is_open() as u8)),
-                        _ => panic!("harness: bad writer call {}", c),
-                    }
+                    // each call is caught on its own: a caller may catch the documented panic of a push and go on to close
+                    let r = std::panic::catch_unwind(std::panic::AssertUnwindSafe(|| -> Option<String> {
+                        match c.as_bytes()[0] {
+                            b'b' => { w.push_bit(&c[1..] == "1"); None },
+                            b'i' => { let mut p = c[1..].split(','); let v = parse_u64(p.next().unwrap()); let wd = parse_usize(p.next().unwrap()); unsafe { w.push_int(v, wd); } None },
+                            b'c' => Some(match w.close() { Ok(()) => "c:ok".to_string(), Err(_) => "c:err".to_string() }),
+                            b'l' => Some(format!("l{}", w.len())),
+                            b'o' => Some(format!("o{}", w.is_open() as u8)),
+                            _ => panic!("harness: bad writer call {}", c),
+                        }
+                    }));
+                    match r { Ok(Some(x)) => out.push(x), Ok(None) => (), Err(_) => out.push("panic".to_string()) }
                 }
             },
             "int" => {
@@ -328,14 +337,17 @@ pub fn exec_writer(t: &[&str]) -> String {
                 let r = if t[2] == "default" { IntVectorWriter::new(&path, width) } else { IntVectorWriter::with_buf_len(&path, width, parse_usize(t[2])) };
                 let mut w = match r { Ok(w) => w, Err(_) => { out.push("new:err".to_string()); return; } };
                 for c in calls {
-                    match c.as_bytes()[0] {
-                        b'p' => w.push(parse_u64(&c[1..])),
-                        b'e' => { let vals: Vec<u64> = c[1..].split(',').filter(|x| !x.is_empty()).map(|x| parse_u64(x)).collect(); w.extend(vals); },
-                        b'c' => out.push(match w.close() { Ok(()) => "c:ok".to_string(), Err(_) => "c:err".to_string() }),
-                        b'l' => out.push(format!("l{}", w.len())),
-                        b'o' => out.push(format!("o{}", w.is_open() as u8)),
-                        _ => panic!("harness: bad writer call {}", c),
-                    }
+                    let r = std::panic::catch_unwind(std::panic::AssertUnwindSafe(|| -> Option<String> {
+                        match c.as_bytes()[0] {
+                            b'p' => { w.push(parse_u64(&c[1..])); None },
+                            b'e' => { let vals: Vec<u64> = c[1..].split(',').filter(|x| !x.is_empty()).map(|x| parse_u64(x)).collect(); w.extend(vals); None },
+                            b'c' => Some(match w.close() { Ok(()) => "c:ok".to_string(), Err(_) => "c:err".to_string() }),
+                            b'l' => Some(format!("l{}", w.len())),
+                            b'o' => Some(format!("o{}", w.is_open() as u8)),
+                            _ => panic!("harness: bad writer call {}", c),
+                        }
+                    }));
+                    match r { Ok(Some(x)) => out.push(x), Ok(None) => (), Err(_) => out.push("panic".to_string()) }
                 }
             },
             _ => panic!("harness: bad writer kind"),
